@@ -400,7 +400,12 @@ impl LinkReport {
 
         let mut svg = SVGWriter::new();
         let last_updated = Utc::now();
-        vg.do_it(false, false, false, &mut svg);
+        // layout-rs asserts on a graph without nodes ("Sorting an empty
+        // graph"). There is nothing to lay out before the first link report
+        // has been collected, so only draw the caption then.
+        if !nodes.is_empty() {
+            vg.do_it(false, false, false, &mut svg);
+        }
         svg.draw_text(
             Point::new(200., 20.),
             &format!("Last updated: {}", last_updated.to_rfc2822()),
